@@ -15,11 +15,11 @@ CHECKS = {
              '(with its __doc__ guard), combine_imports, remove_explicit_return_none, remove_builtin_exception_brackets and remove_object_base leave the '
              'observable unchanged; constant folding (for ANY oracle, via a homomorphism theorem on expressions and the folding-step '
              'lemma over PyInt) and positional-only conversion refine it (identical unless the original run leaves the core); so does '
-             'every pipeline of these eight in transformM; under -O semantics (runO) remove_asserts and remove_debug are neutral too and the pipeline theorem covers ten transforms (all but annotation removal); a run that ends within its fuel is the same at every larger fuel. T01.13: renaming the local names of functions (per-function renaming, parameters copied to their new names as the renamer does) leaves the observable unchanged for every module and fuel under a decidable side condition modOK, proved by relating the two runs state by state through loops, handlers and calls. T01.14: hoisting repeated literals into names preserves it up to the new global names under the decidable hoistOK; T01.15 chains transforms, renaming and hoisting: minify() with its defaults on the core. Ties: the composed model prints the same text as minify() with all defaults (and as minify(rename_locals only), minify(rename_locals+hoist_literals)) on generated core programs, and modOK / hoistOK hold for the witnesses read off the real output; the semantics is validated against CPython exec on generated core '
+             'every pipeline of these eight in transformM; under -O semantics (runO) remove_asserts and remove_debug are neutral too and the pipeline theorem covers ten transforms (all but annotation removal); a run that ends within its fuel is the same at every larger fuel. T01.13: renaming the local names of functions (per-function renaming, parameters copied to their new names as the renamer does) leaves the observable unchanged for every module and fuel under a decidable side condition modOK, proved by relating the two runs state by state through loops, handlers and calls. T01.14: hoisting repeated literals into names preserves it up to the new global names under the decidable hoistOK; T01.17: annotation removal refines it (annotated locals; evaluated annotations are outside the core). T01.15 chains every default transform, renaming and hoisting: minify() with exactly its default options on the core; T01.16 the same under -O with remove_asserts / remove_debug. Ties: the composed model prints the same text as minify() with all defaults (and as minify(rename_locals only), minify(rename_locals+hoist_literals)) on generated core programs, and modOK / hoistOK hold for the witnesses read off the real output; the semantics is validated against CPython exec on generated core '
              'programs; the transform model is compared with minify() on them; differential execution of original vs minified (stdout, '
              'exception type / exit status, public namespace) on generated runnable programs, directed scope programs and corner '
              'programs over subsets of the thirteen default-on switches decides the rest on the real code.',
-        note='PARTIAL: renaming of globals, nested scopes (closures, classes, comprehensions) and annotation removal have no PyCore theorem (their structural contracts '
+        note='PARTIAL: renaming of globals and nested scopes (closures, classes, comprehensions) have no PyCore theorem, evaluated annotations are outside the core (their structural contracts '
              'are C02-C06, C09, C10); outside the PyCore fragment the property rests on the oracle. Documented-unsafe corners of '
              'default options are known findings F12a-d.',
         technique='Lean 4 proof of behaviour preservation over a definitional core semantics + spec validation against CPython + differential execution of the real minifier',
